@@ -59,6 +59,7 @@ U('C04', 'C04_value.cpp', defines=dict(DIM=1, NB=2, ELT='Tr', SLOT_CELLS=3), unw
 U('C04', 'C04_value.cpp', name='C04_value_DIM2_quick', defines=dict(DIM=2, NB=2, ELT='int', SLOT_CELLS=6), entries=['copy_construct_k1', 'move_assign_k1', 'assign_from_convertible_k1'], unwind=7, timeout=1800, heap=128, slots=2)   # D=2 (size() != num_elements()) for the core value operations; the full D=2 set is in the thorough tier
 U('C04', 'C04_value.cpp', name='C04_from_view_DIM3', defines=dict(DIM=3, NB=2, VB=4, ELT='int', SLOT_CELLS=8), entries=['construct_from_view_and_decay', 'assign_from_view_k0'], unwind=11, timeout=1800, heap=128, slots=2)   # D=3: views whose dimension order is permuted (compact or not)
 U('C04', 'C04_value.cpp', name='C04_from_view_DIM3_k1', defines=dict(DIM=3, NB=2, VB=4, ELT='int', SLOT_CELLS=8), entries=['assign_from_view_k1'], unwind=11, timeout=3600, heap=128, slots=3, tier='thorough')
+U('C04', 'C19_owning.cpp', name='C04_based_DIM1', defines=dict(DIM=1, NB=3, ELT='int', SLOT_CELLS=3), entries=['based_construct_copy_equal', 'based_assign_k1'], unwind=6, timeout=1200, heap=128)   # value semantics of arrays with non-zero index bases (the C19 harness, claimed here as well)
 U('C04', 'C04_zero.cpp', defines=dict(SLOT_CELLS=1, NDEBUG=1), unwind=5, timeout=600, heap=128)
 U('C04', 'C04_value.cpp', defines=dict(DIM=2, NB=2, ELT='Tr', SLOT_CELLS=6), unwind=7, timeout=3600, heap=128, tier='thorough', slots=2)
 
